@@ -15,7 +15,7 @@ KNOWN_CLAUSES = ("VER_avail_ignores_uploads", "BC_restarted_cycle_count_lost",
 
 MC_PROPS_STORAGE = dict(
     inv=["Inv_StateOK_More", "VER_ReadOnlyZero", "VER_AdvertisedIsAllocatable", "VER_NoOverAdvertise", "VER_RangeOK"],
-    prop=["ADV_OnlyHeldShares", "ADV_RecordedWhenItFits", "ADV_NeverBeyondSpace", "ADV_NoShareChange", "ADV_Monotone",
+    prop=["CFG_RestartKeepsShares", "ADV_OnlyHeldShares", "ADV_RecordedWhenItFits", "ADV_NeverBeyondSpace", "ADV_NoShareChange", "ADV_Monotone",
           "ADV_AnswerIsNone", "VER_ReadOnlyCall"])
 MC_PROPS_CRAWL = dict(
     inv=["TypeOK", "BC_CountPersistent", "LC_HistoryIsLastCycles", "LC_HistoryAtMost"],
